@@ -84,6 +84,7 @@ type MapScen struct {
 	NKeys     int
 	Init      []int // per key: 0 absent, 1 present (value k+1)
 	FillFirst bool  // chain fillers are inserted before the alphabet keys (keys end up in the overflow bucket)
+	Chain     int   // grow-armed / full-chain tables: number of full buckets in the target chain (0 = 1)
 	Table     TableCond
 	Threads   [][]MIn
 	NoBlock   []bool
@@ -102,6 +103,9 @@ type MapScen struct {
 func (ms *MapScen) name() string {
 	var sb strings.Builder
 	fmt.Fprintf(&sb, "%s/%s/%s/%s/init=%v", ms.Prop, ms.C, relNames[ms.Rel], tableNames[ms.Table], ms.Init)
+	if ms.Chain > 1 {
+		fmt.Fprintf(&sb, "/chain=%d", ms.Chain)
+	}
 	if ms.FillFirst {
 		sb.WriteString("/overflow")
 	}
@@ -218,13 +222,24 @@ func (ms *MapScen) setupRaw(out *MapLike) MState {
 			m.Store(fillTarget+j, 1000+j)
 		}
 	case TGrowArmed:
-		putKeys()
 		nfill := (slots - inTarget%slots) % slots
 		if inTarget == 0 {
 			nfill = slots
 		}
-		for j := 0; j < nfill; j++ {
-			m.Store(fillTarget+j, 1000+j)
+		if ms.Chain > 1 {
+			nfill += slots * (ms.Chain - 1)
+		}
+		if ms.FillFirst {
+			// the alphabet keys end up in the last bucket of the chain
+			for j := 0; j < nfill; j++ {
+				m.Store(fillTarget+j, 1000+j)
+			}
+			putKeys()
+		} else {
+			putKeys()
+			for j := 0; j < nfill; j++ {
+				m.Store(fillTarget+j, 1000+j)
+			}
 		}
 		total := m.Size()
 		for j := 0; total <= growThreshold; j++ {
